@@ -164,6 +164,8 @@ pub enum Event {
     Deliver { at: Path, key: String },
     /// the value of the object member at `path` was decoded (`IntoValue::into_value`)
     Decode { path: Path },
+    /// the value source handed out element `index` of the sequence at `at` (its iterator yielded)
+    Pull { at: Path, index: usize },
     /// an error value died without having been handed to anybody
     Dropped { vid: u32, ty: u8, reports: Vec<u32> },
     /// a user error died without having been handed to the error type
@@ -235,6 +237,7 @@ impl Event {
             ),
             Event::Deliver { at, key } => format!("Deliver entry {key:?} of the object at {}", path_str(at)),
             Event::Decode { path } => format!("Decode member value at {}", path_str(path)),
+            Event::Pull { at, index } => format!("Pull element {index} of the sequence at {}", path_str(at)),
             Event::Dropped { vid, ty, reports } => format!("Dropped v{vid} E{ty} holding {reports:?}"),
             Event::DroppedUser { token } => format!("DroppedUser {token}"),
         }
